@@ -6,6 +6,7 @@ require (
 	go.dedis.ch/fixbuf v1.0.3
 	go.dedis.ch/kyber/v4 v4.0.0
 	golang.org/x/crypto v0.48.0
+	golang.org/x/tools v0.29.0
 )
 
 require (
@@ -13,6 +14,8 @@ require (
 	github.com/cloudflare/circl v1.6.3 // indirect
 	github.com/consensys/gnark-crypto v0.19.2 // indirect
 	github.com/kilic/bls12-381 v0.1.0 // indirect
+	golang.org/x/mod v0.22.0 // indirect
+	golang.org/x/sync v0.20.0 // indirect
 	golang.org/x/sys v0.42.0 // indirect
 )
 
